@@ -1,7 +1,136 @@
 import Cherab.Drv.Proto
-open Cherab.Drv
+import Cherab.Model.Registry
+import Cherab.Model.Periodic
+import Cherab.Gen.Elements
+open Cherab.Drv Cherab.Registry Cherab.Gen.Elements
 
-/-- C19 driver: not yet implemented (echo) -/
+/-!
+C19 driver.  Strings travel as their codes (decimal of the big-endian UTF-8 bytes), objects of the generated table as
+`E<i>` / `I<j>` (positions in `elements` / `isotopes`), constructed objects as comma lists
+`e,name,sym,z,wn,wd` and `i,name,sym,a,wn,wd,<parent>` (built with the generated `mkElement` / `mkIsotope`).
+-/
+
+def elArr : Array El := elements.toArray
+def isoArr : Array Iso := isotopes.toArray
+def spArr : Array Sp := (elements.map Sp.el ++ isotopes.map Sp.iso).toArray
+
+def elId (e : El) : String :=
+  match elArr.findIdx? (fun x => x.beq e) with
+  | some i => s!"E{i}"
+  | none => s!"E?{e.name}"
+
+def isoId (i : Iso) : String :=
+  match isoArr.findIdx? (fun x => x.beq i) with
+  | some j => s!"I{j}"
+  | none => s!"I?{i.base.name}"
+
+/-- parse a species spec -/
+partial def pEl (fs : List String) : Option El :=
+  match fs with
+  | [t] => if t.startsWith "E" then elArr[(t.drop 1).toNat!]? else none
+  | ["e", n, s, z, wn, wd] => some (mkElement (pN n) (pN s) (pN z) (pN wn, pN wd))
+  | _ => none
+
+def pSp (tok : String) : Option Sp :=
+  let fs := tok.splitOn ","
+  match fs with
+  | [t] =>
+    if t.startsWith "E" then (elArr[(t.drop 1).toNat!]?).map Sp.el
+    else if t.startsWith "I" then (isoArr[(t.drop 1).toNat!]?).map Sp.iso
+    else none
+  | "e" :: _ => (pEl fs).map Sp.el
+  | "i" :: n :: s :: a :: wn :: wd :: parent =>
+    (pEl parent).map fun p => Sp.iso (mkIsotope (pN n) (pN s) p (pN a) (pN wn, pN wd))
+  | _ => none
+
+def pQuery (kind arg : String) : Option Query :=
+  match kind with
+  | "s" => some (.str (pN arg))
+  | "n" => some (.int (pI arg))
+  | "o" =>
+    match pSp arg with
+    | some (.el e) => some (.elem e)
+    | some (.iso i) => some (.isot i)
+    | none => none
+  | _ => none
+
+def bits (l : List Bool) : String := String.ofList (l.map fun b => if b then '1' else '0')
+
+def lhBeq : LHVal Nat → LHVal Nat → Bool
+  | .sp a, .sp b => hashBeq a b
+  | .charge a, .charge b => a == b
+  | .tr a, .tr b => a == b
+  | _, _ => false
+
+def lhListBeq : List (LHVal Nat) → List (LHVal Nat) → Bool
+  | [], [] => true
+  | x :: xs, y :: ys => lhBeq x y && lhListBeq xs ys
+  | _, _ => false
+
+def dumpIdx {α : Type} (idx : Index α) (f : α → String) : String :=
+  " ".intercalate (idx.map fun kv => s!"{kv.1}:{f kv.2}")
+
+def step (ts : List String) : String :=
+  match ts with
+  | ["count"] => s!"{elArr.size} {isoArr.size} {elementIndex.length} {isotopeIndex.length}"
+  | ["el", i] =>
+    match elArr[pN i]? with
+    | some e => s!"{e.name} {e.sym} {e.z} {e.wNum} {e.wDen}"
+    | none => "none"
+  | ["iso", j] =>
+    match isoArr[pN j]? with
+    | some i => s!"{i.base.name} {i.base.sym} {i.base.z} {i.base.wNum} {i.base.wDen} {i.a} {elId i.parent} {i.parent.name}"
+    | none => "none"
+  | ["eidx"] => dumpIdx elementIndex elId
+  | ["iidx"] => dumpIdx isotopeIndex isoId
+  | ["le", k, a] =>
+    match pQuery k a with
+    | some q => match lookupElement elementIndex q with | some e => elId e | none => "ValueError"
+    | none => "bad-query"
+  | ["li", k, a, n] =>
+    match pQuery k a with
+    | some q =>
+      let num : Option Int := if n == "-" then none else some (pI n)
+      match lookupIsotope elementIndex isotopeIndex q num with | some i => isoId i | none => "ValueError"
+    | none => "bad-query"
+  | ["cmp", a, b] =>
+    match pSp a, pSp b with
+    | some x, some y => bits [pyEq cfg x y, pyNe cfg x y, hashBeq (spHash cfg x) (spHash cfg y)]
+    | _, _ => "bad-species"
+  | ["row", i] =>
+    match spArr[pN i]? with
+    | some x =>
+      let l := spArr.toList
+      bits (l.map fun y => pyEq cfg x y) ++ " " ++ bits (l.map fun y => pyNe cfg x y) ++ " " ++
+        bits (l.map fun y => hashBeq (spHash cfg x) (spHash cfg y))
+    | none => "none"
+  | ["lcmp", a, ca, ta, b, cb, tb] =>
+    match pSp a, pSp b with
+    | some x, some y =>
+      let l1 : Line Nat := ⟨x, pI ca, pN ta⟩
+      let l2 : Line Nat := ⟨y, pI cb, pN tb⟩
+      bits [lineEq cfg l1 l2, lineNe cfg l1 l2, lhListBeq (lineHash cfg l1) (lineHash cfg l2)]
+    | _, _ => "bad-species"
+  | ["linector", a, c] =>
+    match pSp a with
+    | some x => fB (lineCtorOk x (pI c))
+    | none => "bad-species"
+  | ["periodic", z] =>
+    match Cherab.Periodic.symbolOf (pN z), Cherab.Periodic.nameOf (pN z) with
+    | some s, some n => s!"{s} {n}"
+    | _, _ => "none"
+  | ["lower", c] => toString (lower (pN c))
+  | ["strint", n] => toString (strInt (pI n))
+  | ["cat", a, b] => toString (cat (pN a) (pN b))
+  | ["bytes", c] => toString (bytes (pN c))
+  | ["enc", hex] => toString (enc hex)
+  | ["keys", a] =>
+    match pSp a with
+    | some (.el e) => " ".intercalate ((elementKeys e).map toString)
+    | some (.iso i) => " ".intercalate ((isotopeKeys i).map toString)
+    | none => "bad-species"
+  | _ => "bad-op"
+
 def main : IO UInt32 := do
-  loop (stateless fun ts => " ".intercalate ts) (← IO.getStdin) (← IO.getStdout) ()
+  loop (stateless step) (← IO.getStdin) (← IO.getStdout) ()
   return 0
